@@ -298,12 +298,14 @@ func applyOp(s stackage.Stack, op string) string {
 		case "xfer": // the root transferred into <dest value>
 			x, _ := parseV(t[1:])
 			dest := Build(x)
+			before := deepDump(s)
 			ok := s.Transfer(dest)
 			d := "-"
 			if ds, isS := stackage.ConvertStack(dest); isS {
 				d = obsStack(ds)
 			}
-			return b01(ok) + " dst{" + d + "}"
+			// the source's content AND configuration (lock bookkeeping included) must be exactly as before
+			return b01(ok) + " dst{" + d + "} sd" + b01(before != deepDump(s))
 		}
 		panic("bad op " + t[0])
 	})
@@ -346,6 +348,9 @@ func genCapx(r *rand.Rand, id string, tier string) string {
 	c := Cfg{Kind: kinds(r), Cap: k, Fifo: r.Intn(3) == 0}
 	if r.Intn(8) == 0 {
 		c.Cap = 0
+	}
+	if r.Intn(4) == 0 {
+		c.Ppf = 1 + r.Intn(4) // a push policy: the capacity must hold on that path too
 	}
 	n0 := r.Intn(k + 1)
 	if c.Cap == 0 {
@@ -488,7 +493,7 @@ func genPol(r *rand.Rand, id string, tier string) string {
 // xfer (C15): the whole (|src|, |dst|, capacity, destination form) grid, sampled
 func genXfer(r *rand.Rand, id string, tier string) string {
 	nextLeaf = 0
-	src := genStackLit(r, Cfg{Kind: kinds(r), Fifo: r.Intn(2) == 0}, r.Intn(6), true)
+	src := genStackLit(r, Cfg{Kind: kinds(r), Fifo: r.Intn(2) == 0, Mtx: r.Intn(3) == 0}, r.Intn(6), true)
 	dc := Cfg{Kind: kinds(r)}
 	if r.Intn(3) != 0 {
 		dc.Cap = 1 + r.Intn(6)
@@ -516,5 +521,6 @@ func genXfer(r *rand.Rand, id string, tier string) string {
 		dest = genStackLit(r, dc, nd, true)
 		dest.Form = []string{"n", "n", "a", "as", "p"}[r.Intn(5)]
 	}
-	return src.String() + " | xfer " + dest.String()
+	// afterwards the source must still be usable (a lock left behind would block this Push for ever)
+	return src.String() + " | xfer " + dest.String() + " ; push i77"
 }
